@@ -169,7 +169,14 @@ func (g *Gen) storeScenario(focus string) (string, []string) {
 	nreq := 1 + g.Intn(4)
 	qAll := fmt.Sprintf("Q:%s:-:-:-:-:-:-:-", key)
 	for r := 0; r < nreq; r++ {
-		rows, ts := g.rowsFrom(pool, 1+g.Intn(10), sc.size)
+		nrows := 1 + g.Intn(10)
+		if g.Intn(5) == 0 {
+			// a large request: many commands to one file, non-adjacent duplicate intervals
+			// (anything that reorders or batches the commands of one flush shows here)
+			nrows = 13 + g.Intn(40)
+			tags = append(tags, "bigreq")
+		}
+		rows, ts := g.rowsFrom(pool, nrows, sc.size)
 		all = append(all, ts...)
 		steps = append(steps, fmt.Sprintf("W:%s:f:%s:%s", key, sc.cols, rows))
 		if g.Intn(6) == 0 {
